@@ -361,9 +361,16 @@ class DeclareImplicitArraysVisitor(BasicConstructVisitor):
     _initialize_vars: bool
     _referenced_var_names: Set[str]
 
-    def __init__(self, *, dimmed_var_names: Set[str], initialize_vars: bool = False):
+    def __init__(
+        self,
+        *,
+        dimmed_var_names: Set[str],
+        initialize_vars: bool = False,
+        default_str_storage: int = b09.DEFAULT_STR_STORAGE,
+    ):
         self._dimmed_var_names = dimmed_var_names
         self._initialize_vars = initialize_vars
+        self._default_str_storage = default_str_storage
         self._referenced_var_names = set()
 
     def visit_array_ref(self, array_ref: BasicArrayRef) -> None:
@@ -375,7 +382,7 @@ class DeclareImplicitArraysVisitor(BasicConstructVisitor):
 
     @property
     def dim_statements(self) -> List[BasicStatement]:
-        return [
+        statements = [
             BasicDimStatement(
                 [
                     BasicArrayRef(
@@ -388,6 +395,9 @@ class DeclareImplicitArraysVisitor(BasicConstructVisitor):
             )
             for var in sorted(self.implicitly_declared_arrays)
         ]
+        for statement in statements:
+            statement.default_str_storage = self._default_str_storage
+        return statements
 
 
 class JoystickVisitor(BasicConstructVisitor):
